@@ -5,7 +5,7 @@ import ast
 from typing import Dict, List, Set
 
 from ..cfg import Builder, build_cfg, default_may_raise, guards_of, parent_map
-from ..src import AnalysisError, loc, norm, own_nodes
+from ..src import rename_id, AnalysisError, loc, norm, own_nodes
 
 RUNNER = "tdgl.solver.runner"
 SOLVER = "tdgl.solver.solver"
@@ -258,27 +258,33 @@ def cancellation(ctx):
         raise AnalysisError("_run_stage no longer has one KeyboardInterrupt handler")
     h = hs[0]
     pm = parent_map(fn)
+    rets = [n for n in own_nodes(fn) if isinstance(n, ast.Return)]
+    flag = None
+    if len(rets) == 1 and isinstance(rets[0].value, ast.UnaryOp) and isinstance(rets[0].value.op, ast.Not) and isinstance(rets[0].value.operand, ast.Name):
+        flag = rets[0].value.operand.id
     breaks = [n for n in ast.walk(h) if isinstance(n, ast.Break)]
     bad = []
     for b in breaks:
         blk = pm[id(b)][0]
         body = getattr(blk, pm[id(b)][1])
         prev = [norm(s) for s in body[: body.index(b)]]
-        if "cancelled = True" not in prev:
+        if f"{flag} = True" not in prev:
             bad.append(f"L{b.lineno}")
     others = [n for n in ast.walk(h) if isinstance(n, (ast.Return, ast.Raise))]
-    ctx.ob("R15.4", "interrupt handler: every exit is `cancelled = True; break` or falls through to resume", not bad and not others and bool(breaks),
-           detail={"breaks": len(breaks), "unflagged": bad, "other_exits": [norm(o) for o in others]}, where=f.fq,
+    init_false = any(isinstance(n, ast.Assign) and norm(n) == f"{flag} = False" for n in own_nodes(fn))
+    ctx.ob("R15.4", "interrupt handler: every exit is `<flag> = True; break` or falls through to resume", not bad and not others and bool(breaks) and flag is not None and init_false,
+           detail={"flag": flag, "breaks": len(breaks), "unflagged": bad, "other_exits": [norm(o) for o in others]}, where=f.fq,
            construct="KeyboardInterrupt handler", loc=loc(f, h), message="interrupt handler leaves the loop without recording the cancellation",
            consequence="a cancelled stage is reported as completed (or the interrupt propagates and no solution is returned)")
-    rets = [n for n in own_nodes(fn) if isinstance(n, ast.Return)]
-    ok = len(rets) == 1 and norm(rets[0].value) == "not cancelled"
-    ctx.ob("R15.4", "_run_stage returns `not cancelled`", ok, detail=[norm(r) for r in rets], where=f.fq, construct="return of _run_stage",
+    ok = flag is not None
+    ctx.ob("R15.4", "_run_stage returns `not <cancellation flag>`", ok, detail=[norm(r) for r in rets], where=f.fq, construct="return of _run_stage",
            message=f"{[norm(r) for r in rets]}", consequence="the caller cannot tell a cancelled thermalisation from a completed one")
     fr = repo.func(RUNNER, "Runner.run")
-    rr = [(norm(n.value), [("" if br == "true" else "not ") + norm(g.test) for g, br in guards_of(fr.node, n, parent_map(fr.node)) if isinstance(g, ast.If)])
+    stage1 = [n for n in own_nodes(fr.node) if isinstance(n, ast.Assign) and isinstance(n.value, ast.Call) and norm(n.value.func) == "self._run_stage"]
+    sflag = norm(stage1[0].targets[0]) if len(stage1) == 1 else "?"
+    rr = [(norm(n.value), [("" if br == "true" else "not ") + rename_id(norm(g.test), sflag, "OK") for g, br in guards_of(fr.node, n, parent_map(fr.node)) if isinstance(g, ast.If)])
           for n in own_nodes(fr.node) if isinstance(n, ast.Return)]
-    ok = sorted(rr) == sorted([("False", ["not success"]), ("True", [])])
+    ok = sorted(rr) == sorted([("False", ["not OK"]), ("True", [])])
     ctx.ob("R15.4", "run() returns False only for a cancelled thermalisation, True once the recorded stage was entered", ok,
            detail=rr, where=fr.fq, construct="returns of run()", message=f"{rr}",
            consequence="a cancelled recorded stage returns no Solution although frames were written")
